@@ -166,6 +166,9 @@ Fixpoint rel (tr : list event) : list event :=
   | e :: r => if relevant e then e :: rel r else rel r
   end.
 
+Lemma rel_cont_off s0 tr : rel (cont_off_events s0 ++ tr) = rel tr.
+Proof. unfold cont_off_events. destruct (cont_plugins s0); reflexivity. Qed.
+
 Lemma irrelevant_steps e : relevant e = false ->
   (forall p, pstep_ev p e = p) /\ (forall q, qstep_ev q e = q) /\ (forall a, lstep_ev a e = a).
 Proof.
@@ -284,7 +287,8 @@ Proof. unfold apply_rest. destruct (o_start o), (o_threads o), (o_modules o); re
 Ltac core_simpl :=
   unfold core_of; simpl;
   rewrite ?ar_fsm, ?ar_runt, ?ar_rf, ?ar_alive, ?ar_pe, ?ar_ra, ?ar_ex, ?ar_trace,
-          ?rl_fsm, ?rl_runt, ?rl_rf, ?rl_alive, ?rl_pe, ?rl_ra, ?rl_ex, ?rl_trace, ?rl_sev, ?ar_sev; simpl.
+          ?rl_fsm, ?rl_runt, ?rl_rf, ?rl_alive, ?rl_pe, ?rl_ra, ?rl_ex, ?rl_trace, ?rl_sev, ?ar_sev; simpl;
+  rewrite ?rel_cont_off.
 
 Lemma core_release s : core_of (release s) = core_of s.
 Proof. core_simpl. reflexivity. Qed.
@@ -798,7 +802,9 @@ Proof. unfold refuse. destruct (is_cont c); [destruct (cont_closed (release s))|
 
 Lemma g_close_trigger s t : grows no_me s (close_trigger s t).
 Proof.
-  unfold close_trigger, close_enter_closed. destruct (st_fsm s); try leaf. destruct (runt s); leaf.
+  unfold close_trigger, close_enter_closed. destruct (st_fsm s); try leaf.
+  - destruct (runt s); leaf.
+  - unfold close_cont, cont_off_events. destruct (cont_plugins (release s)); leaf.
 Qed.
 
 Lemma g_enter_close s t : grows no_me s (enter_close s t).
@@ -864,6 +870,7 @@ Proof.
   - destruct (run_finished s) as [[|]|]; try leaf.
     eapply grows_weaken; [apply no_me_okn | apply g_close_trigger].
   - unfold close_enter_closed. destruct (runt s); leaf.
+  - unfold close_cont, cont_off_events. destruct (cont_plugins (release s)); leaf.
   - destruct (run_finished s) as [[|]|]; leaf.
 Qed.
 
